@@ -1298,6 +1298,9 @@ class Interp:
                     raise CannotMerge()
             if isinstance(f, type) and issubclass(f, BaseException):
                 args = [self.to_str(a) if isinstance(a, (SV, CV, Opaque, PDict, PSet)) else a for a in args]
+            elif any(isinstance(a, Opaque) for a in args) and isinstance(getattr(f, "__self__", None), (str, bytes, tuple, frozenset)):
+                # method of an immutable value applied to an unknown value: unknown result, no effect
+                return Opaque(f"{getattr(f, '__name__', 'native')}({', '.join(_why(a) for a in args)})")
             try:
                 return f(*args, **kwargs)
             except EngineError:
